@@ -342,7 +342,9 @@ impl Hash for Primitive {
             Byte(x) => x.hash(state),
             Float(x) => integer_decode(*x).hash(state),
             Function(x) => x.hash(state),
-            Map(_) => unimplemented!("you may not use a map as a key"),
+            // A map is never equal to another value (see `PartialEq for GcMap`), so its identity is a
+            // consistent hash. A map is not accepted as a key, but it may be a field of an object that is.
+            Map(x) => (&*x.0 as *const GcCell<HashMap<Primitive, Primitive>> as usize).hash(state),
             Object(x) => x.hash(state),
             Vector(x) => x.hash(state),
             Str(x) => x.hash(state),
